@@ -93,7 +93,7 @@ def main(argv=None):
             print(f"MACHINERY-FAILURE property={prop}: clause {f['clause']} {json.dumps(f.get('detail'))[:200]}",
                   file=sys.stderr)
         return 2
-    mine = [f for f in out.fails if f["prop"] == prop]
+    mine = [f for f in out.fails if prop in f["prop"].split(",")]
     entries = findings.load()
     known, new = {}, []
     for f in mine:
